@@ -313,6 +313,7 @@ class World:
         # viewer would, the others take them from the whole 32-bit range in arbitrary order (see _next_pid)
         self.pid = rng.randrange(1, 200)
         self.pid_wild = rng.random() < 0.75
+        self.pid_log = []
         self.cursor = rng.randrange(1 << 30)
 
     def _uuid(self):
@@ -363,6 +364,7 @@ class World:
             self.pid = (self.pid - rng.choice([1, 500, 9999, 10001, 20002, 65536, 1 << 24, 1 << 31])) & 0xFFFFFFFF
         else:
             self.pid = rng.randrange(1 << 32)
+        self.pid_log.append(self.pid)
         return self.pid
 
     def payload(self, dkey, k, s=0):
@@ -655,6 +657,7 @@ def _replay_states(tasks):
                 bad = min(bads, key=len)
                 fails.append({"layout": li + 1, "history": hist + since[-6:], "act": {k: v for k, v in act.items() if k != "ch"},
                               "label": label, "mismatches": bad[:2], "alternatives_allowed": len(grp),
+                              "packet_ids_of_the_last_datagrams_built (all circuits, oldest first)": w.pid_log[-10:],
                               "after_self_addressed": act["n"] == "C" and any(
                                   _poisons(x) and x["a"] == act["a"] for x in hist + since[:-1])})
                 if not fresh:
